@@ -99,8 +99,8 @@ Print Assumptions C04_identity_glue_any_rule_symmetric.
 (** DEFAULT (explicit-hydrogen) mode, the "all centre hydrogens explicit" branch of the precondition, for the reaction's
     own templates -- centre or full ITS, forwards or backwards.  [default_okb A B tpl] is the boolean form of that way of
     writing (evaluated by [run_c04] on every case and recomputed by the harness): no atom changes its implicit hydrogen
-    count and no count is negative; every hydrogen atom is bonded on both sides, and only to non-hydrogen atoms; it is in
-    the template with all its bonds; _strip_explicit_h can remove it (non-hydrogen neighbour on both template sides:
+    count and no count is negative; every hydrogen atom is bonded on both sides, and only to non-hydrogen atoms; if it
+    is a template atom it is there with all its bonds (otherwise it is a spectator) and _strip_explicit_h can remove it (non-hydrogen neighbour on both template sides:
     excludes H2, H+).  Then: the reactor's rule exists (SynRule.__init__ with implicit_h=True never fails here), the
     matcher's pattern is its left side, the identity is a valid match on the substrate (own side with implicit
     hydrogens), and the glued ITS decomposes to the pair of implicit-hydrogen forms of the reaction's two sides.  This is
